@@ -10,9 +10,11 @@ Local Open Scope N_scope.
 Inductive result (A : Type) :=
 | Ok (a : A)
 | Fail (code : N)            (* verify() result code 1..4; nothing was written *)
-| Crash (why : nat)          (* undefined behaviour in the C++: 1 NULL mode/hash object, 2 out-of-bounds pad read,
-                                3 size underflow in export, 4 uninitialised IV bytes *)
-| Hang.                      (* the pipeline never terminates (zero-block READY buffer) *)
+| Crash (why : nat)          (* undefined behaviour in the C++: 1 NULL mode/hash object.  (Codes 2 out-of-bounds pad
+                                read, 3 size underflow in export, 4 short IV read were produced by earlier versions
+                                of this model; export_buffer was repaired and the model no longer produces them.) *)
+| Hang.                      (* the pipeline never terminates (zero-block READY buffer; since the repair of
+                                load_buffer no such buffer is produced by loads_of, see FileProofsTotal) *)
 Arguments Ok {A} a. Arguments Fail {A} code. Arguments Crash {A} why. Arguments Hang {A}.
 
 (* ---------- iobuffer ---------- *)
@@ -42,12 +44,14 @@ Definition load_dec (rest : list N) : load * list N :=
   let readover := (n <? sum)%nat || match rest' with [] => true | _ => false end in
   ({| ld_data := firstn (16 * (n / 16)) got; ld_total := (n / 16)%nat; ld_final := readover |}, rest').
 
-(* the loads performed until `over` (the first non-FULL load); fuel = upper bound on their number *)
+(* the loads performed until `over` (the first non-FULL load); fuel = upper bound on their number.
+   A FINAL load without a block (decryption: fewer than 16 bytes left -- an empty body or a ragged
+   tail) is reported as NODATA by load_buffer: no buffer is handed over, loading just ends *)
 Fixpoint loads (ld : list N -> load * list N) (fuel : nat) (rest : list N) : list load :=
   match fuel with
   | O => []
   | S f => let (l, rest') := ld rest in
-           if ld_final l then [l] else l :: loads ld f rest'
+           if ld_final l then (if (ld_total l =? 0)%nat then [] else [l]) else l :: loads ld f rest'
   end.
 Definition loads_of (ispadding : bool) (rest : list N) : list load :=
   loads (if ispadding then load_enc else load_dec) (S (length rest / sum)) rest.
@@ -56,12 +60,11 @@ Definition loads_of (ispadding : bool) (rest : list N) : list load :=
 Definition export (ispadding : bool) (l : load) (data : list N) : result (list N) :=
   if ld_final l then
     if ispadding then Ok (firstn (16 * ld_total l) data)
-    else match ld_total l with
-         | O => Crash 2                                  (* b[now - 1][15] with now = 0 *)
-         | S _ => let padding := N.to_nat (nth (16 * ld_total l - 1) data 0) in
-                  if (16 * ld_total l <? padding)%nat then Crash 3   (* (now << 4) - padding wraps *)
-                  else Ok (firstn (16 * ld_total l - padding) data)
-         end
+    else let size := (16 * ld_total l)%nat in           (* u32_t size = now << 4 *)
+         (* u8_t padding = (ispadding || now == 0) ? 0 : b[now - 1][15] *)
+         let padding := if (ld_total l =? 0)%nat then 0%nat else N.to_nat (nth (size - 1) data 0) in
+         (* fwrite(b, 1, padding > size ? 0 : size - padding, fout) *)
+         Ok (if (size <? padding)%nat then [] else firstn (size - padding) data)
   else Ok (firstn sum data).
 End Chunk.
 
@@ -181,15 +184,15 @@ Definition ver (F key : list N) : result bool :=
 Definition dec (F key : list N) : result (list N) :=
   match verify F key with
   | Ok 0 =>
-      if (length F <? text_mark T)%nat then Crash 4          (* fread of the IVs came up short *)
-      else
-        match create false (nth 8 F 0) with
-        | None => Crash 1
-        | Some kind =>
-            let ks := genall key in
-            pipe_seq (aes_enc_with ks) (aes_dec_with ks) kind T c false
-                     (firstn 16 (skipn iv_mark F)) (skipn (text_mark T) F)
-        end
+      (* verify accepted, so length F >= hmac_mark + 64 = iv_mark + 26: the 16 IV bytes used are present;
+         a file shorter than text_mark T has an empty body (fseek beyond EOF, fread returns 0) *)
+      match create false (nth 8 F 0) with
+      | None => Crash 1
+      | Some kind =>
+          let ks := genall key in
+          pipe_seq (aes_enc_with ks) (aes_dec_with ks) kind T c false
+                   (firstn 16 (skipn iv_mark F)) (skipn (text_mark T) F)
+      end
   | Ok code => Fail code
   | Fail x => Fail x | Crash w => Crash w | Hang => Hang
   end.
